@@ -169,29 +169,40 @@ func describeIndex(data []byte, n *Namer) string {
 	return "[" + strings.Join(es, ",") + "]"
 }
 
-// BlobFiles lists blobs/<alg>/* (hex names) with whether the bytes hash to the name.
+// BlobFiles lists every regular file below blobs/ with whether it sits at
+// blobs/<alg>/<hex> and its bytes hash (by that algorithm) to its name.  A file
+// directly under blobs/, under an unknown algorithm directory or deeper is bad.
 func BlobFiles(root string) (names []string, badNames []string) {
-	for _, alg := range []string{"sha256", "sha512"} {
-		ents, _ := os.ReadDir(filepath.Join(root, "blobs", alg))
-		for _, e := range ents {
-			if e.IsDir() {
-				continue
-			}
-			data, err := os.ReadFile(filepath.Join(root, "blobs", alg, e.Name()))
-			var sum string
-			if alg == "sha512" {
-				h := sha512.Sum512(data)
-				sum = hex.EncodeToString(h[:])
-			} else {
-				h := sha256.Sum256(data)
-				sum = hex.EncodeToString(h[:])
-			}
-			names = append(names, e.Name())
-			if err != nil || sum != e.Name() {
-				badNames = append(badNames, e.Name())
-			}
+	base := filepath.Join(root, "blobs")
+	filepath.Walk(base, func(p string, info os.FileInfo, err error) error {
+		if err != nil || info.IsDir() {
+			return nil
 		}
-	}
+		rel, _ := filepath.Rel(base, p)
+		parts := strings.Split(rel, string(filepath.Separator))
+		if len(parts) != 2 {
+			badNames = append(badNames, rel)
+			return nil
+		}
+		data, rerr := os.ReadFile(p)
+		var sum string
+		switch parts[0] {
+		case "sha256":
+			h := sha256.Sum256(data)
+			sum = hex.EncodeToString(h[:])
+		case "sha384":
+			h := sha512.Sum384(data)
+			sum = hex.EncodeToString(h[:])
+		case "sha512":
+			h := sha512.Sum512(data)
+			sum = hex.EncodeToString(h[:])
+		}
+		names = append(names, parts[1])
+		if rerr != nil || sum != parts[1] {
+			badNames = append(badNames, rel)
+		}
+		return nil
+	})
 	return
 }
 
